@@ -261,6 +261,12 @@ def _wrappers(cx: Ctx, env, ty, depth, inner_fn):
             idx = {f"({other},)": 1, "()": 0, f"({other}, {other})": 2}[seqlit]
             lit = f"(*{seqlit}, {inner})" if kind == "T" else f"[*{seqlit}, {inner}]"
             return f"{lit}[{idx}]"
+        if cfg.callable_fields and kind in ("T", "L") and cfg.called_lambdas and cx.chance(2):
+            # the position reaches the subscript through a (defaulted / keyword) parameter of a called lambda: `nth(p)` / `nth(p, i_=1)`
+            t_, i_ = cx.fresh(env), "i_"
+            lit = gen(cx, env, (kind, tuple(tys)), depth - 1)
+            call = cx.pick([f"{lit}", f"{lit}, {i_}={pos}", f"{lit}, {pos}"])
+            return f"(lambda {t_}, {i_}={pos}: {t_}[{i_}])({call})"
         if cfg.callable_fields and kind == "R" and cfg.dict_attr and cx.chance(2):
             # a field that holds a function, read by attribute and called on the spot: `{'f_a': <lambda>, ..}.f_a(x)`
             q_ = cx.fresh(env)
